@@ -935,6 +935,16 @@ func (x *Exec) atFun(st *State, arr, off, idx *Term) *Term {
 		o := BoundVar("o", SInt)
 		k := BoundVar("k", SInt)
 		x.ctx.assumeGlobal(st, Forall([]*Term{a, o, k}, Eq(App(name, es, a, o, k), Select(a, Add(o, k))), []*Term{App(name, es, a, o, k)}))
+		// reading through a store keeps the reasoning in terms of `at` (so that quantified clauses about the old array are triggered)
+		a2 := BoundVar("a", arr.sort)
+		p2 := BoundVar("p", SInt)
+		v2 := BoundVar("v", es)
+		o2 := BoundVar("o", SInt)
+		k2 := BoundVar("k", SInt)
+		st2 := TS.mk("store", "", arr.sort, a2, p2, v2)
+		x.ctx.assumeGlobal(st, Forall([]*Term{a2, p2, v2, o2, k2},
+			Eq(App(name, es, st2, o2, k2), Ite(Eq(Add(o2, k2), p2), v2, App(name, es, a2, o2, k2))),
+			[]*Term{App(name, es, st2, o2, k2)}))
 	}
 	_ = key
 	return App(name, es, arr, off, idx)
